@@ -66,3 +66,45 @@ func TestToy(t *testing.T) {
 	}
 	t.Logf("unlocked: %d states %d transitions %d executions outcomes %v; locked: %d states %d executions", r.States, r.Transitions, r.Executions, r.Outcomes, r2.States, r2.Executions)
 }
+
+// readers of an RWMutex are not ordered with each other: a write inside a read-lock section races with the same
+// write in another reader; a reader's write does not race with a later writer section.
+type rdw struct {
+	mu   RWMutex
+	mode string
+}
+
+func (w *rdw) Key() string                       { return "" }
+func (w *rdw) CheckState() []string              { return nil }
+func (w *rdw) Pending() bool                     { return false }
+func (w *rdw) CheckTerminal() ([]string, string) { return nil, "done" }
+
+type rdwH struct{ mode string }
+
+func (h rdwH) Start(s *Sched) World {
+	w := &rdw{mode: h.mode}
+	s.Spawn("r0", func() { w.mu.RLock(); Touch("flag", true); w.mu.RUnlock() })
+	if h.mode == "two-readers" {
+		s.Spawn("r1", func() { w.mu.RLock(); Touch("flag", true); w.mu.RUnlock() })
+	} else {
+		s.Spawn("w1", func() { w.mu.Lock(); Touch("flag", true); w.mu.Unlock() })
+	}
+	return w
+}
+
+func TestReaderSectionsAreNotOrdered(t *testing.T) {
+	race := func(mode string) bool {
+		for _, v := range Explore(rdwH{mode}, Options{}).Violations {
+			if v.Kind == "race" {
+				return true
+			}
+		}
+		return false
+	}
+	if !race("two-readers") {
+		t.Fatal("two writes in two read-lock sections must be reported as a race")
+	}
+	if race("reader-writer") {
+		t.Fatal("a read-lock section and a write-lock section are ordered by the lock")
+	}
+}
